@@ -54,6 +54,7 @@ type Params struct {
 	MaxBlkSize  uint32           `json:"maxblksize"`
 	MemPoolSize int              `json:"mempoolsize"`
 	Rich        bool             `json:"rich"` // plain accounts get a large balance (long proposal runs)
+	SRIH        bool             `json:"srih"` // StateRootInHeader: headers carry the previous state root (32 bytes more)
 }
 
 type World struct {
@@ -177,6 +178,7 @@ func NewWorld(t testing.TB, p Params) *World {
 		}
 		c.MaxTransactionsPerBlock = p.MaxTx
 		c.MaxBlockSize = p.MaxBlkSize
+		c.StateRootInHeader = p.SRIH
 		if p.MemPoolSize != 0 {
 			c.MemPoolSize = p.MemPoolSize
 		}
@@ -309,7 +311,7 @@ func (w *World) resetReplica() {
 	}
 	chainkit.Start(rep)
 	for i, raw := range w.raws {
-		d, err := chainkit.DecodeBlock(raw, false)
+		d, err := chainkit.DecodeBlock(raw, w.P.SRIH)
 		if err != nil {
 			w.t.Fatal(err)
 		}
@@ -409,7 +411,7 @@ func (w *World) addBlock(mustHalt bool, txs ...*transaction.Transaction) {
 	}
 	w.raws = append(w.raws, raw)
 	for _, bc := range []*core.Blockchain{w.bc, w.rep} {
-		d, err := chainkit.DecodeBlock(raw, false)
+		d, err := chainkit.DecodeBlock(raw, w.P.SRIH)
 		if err != nil {
 			w.t.Fatal(err)
 		}
